@@ -197,21 +197,44 @@ def rules(ctx, db):
 
     # ------------------------------------------------------------------ R4 Proactor::cancel / pop
     take_rx = r"^compio_driver::key::Key::<T>::take_result$"
-    takers = [(f, bb, t) for f, bb, t in db.callers_of(take_rx) if not f.blocks[bb]["cl"]]
+    raw_takers = [(f, bb, t) for f, bb, t in db.callers_of(take_rx) if not f.blocks[bb]["cl"]]
+
+    def _take_guarded(f, bb):
+        g1 = guarded_by_bool(f, bb, r"ErasedKey::has_result$", True)
+        g2 = dominated_by_any(f, [b2 for b2, _ in calls(f, r"ErasedKey::set_result$")], bb)
+        return g1 is not None or g2 is not None
+
+    # a private free helper of the driver crate that takes the result without testing it passes the obligation on to
+    # its call sites (one level): those are then the take sites
+    takers = []
+    take_helpers = {}
+    for f, bb, t in raw_takers:
+        if f.self_adt is None and not f.trait and f.id.startswith("compio_driver::") and f.kind == "fn" \
+                and not f.rec.get("pub") and not _take_guarded(f, bb):
+            take_helpers[f.id] = f
+        else:
+            takers.append((f, bb, t))
+    for g in db.fns.values():
+        for bb, t in g.calls():
+            if any(h.id in take_helpers for h in db.callee_fns(t, expand_traits=False)):
+                takers.append((g, bb, t))
+
+    def take_sites(f):
+        return [bb for bb, t in f.calls() if call_matches(t, take_rx)
+                or any(h.id in take_helpers for h in db.callee_fns(t, expand_traits=False))]
+
     ctx.floor("R4", "take_result call sites", len(takers), 4)
     for f, bb, t in takers:
         ok_mod = f.self_adt == "compio_driver::Proactor"
         ctx.ob("R4", "take_result-caller:" + f.name, ok_mod,
                "Key::take_result is only called by Proactor methods", f)
-        g1 = guarded_by_bool(f, bb, r"ErasedKey::has_result$", True)
-        g2 = dominated_by_any(f, [b2 for b2, _ in calls(f, r"ErasedKey::set_result$")], bb)
-        ctx.ob("R4", "take_result-guard:" + f.name, g1 is not None or g2 is not None,
+        ctx.ob("R4", "take_result-guard:" + f.name, _take_guarded(f, bb),
                "take_result only on the has_result()==true edge (or right after set_result)", f)
     canc = db.methods(self_adt=r"^compio_driver::Proactor$", name="cancel", trait="")
     if not canc:
         ctx.missing("R4", "Proactor::cancel")
     for f in canc:
-        tk = [bb for bb, _ in calls(f, take_rx)]
+        tk = take_sites(f)
         dc = [bb for bb, _ in calls(f, r"^compio_driver::sys::driver::\w+::Driver::cancel$")]
         ctx.ob("R4", "cancel-shape", len(tk) == 1 and len(dc) >= 1,
                "Proactor::cancel has one take_result site and reaches the driver's cancel", f)
@@ -396,7 +419,11 @@ def rules(ctx, db):
         sz = [f for f in db.fns.values() if f.id.startswith("compio_net::socket::submit_zerocopy::") and f.kind == "coroutine"]
         for f in sz:
             sm = [bb for bb, t in calls(f, r"submit_multi$")]
+            # the Zerocopy future is built by its constructor or, equivalently, by the struct literal
             zn = [bb for bb, t in calls(f, r"socket::Zerocopy::<T>::new$")]
+            zn += [bi for bi, si, s in f.stmts() if s.get("r", {}).get("k") == "agg"
+                   and s["r"].get("adt") == "compio_net::socket::Zerocopy"]
+            zn.sort(key=lambda b: (not (sm and f.cfg.dominates(sm[0], b)), b))
             ctx.ob("R7", "zerocopy-op-stays-in-stream", bool(sm) and bool(zn) and f.cfg.dominates(sm[0], zn[0]) and not calls(f, r"SubmitMulti::<T>::try_take$"),
                    "after the first (send) result the op stays inside the multishot stream, which the Zerocopy future owns", f)
 
